@@ -53,6 +53,14 @@ CLAIMED = {
  'C04': ('Lean 4 proof (counting conservation for the intake and placement steps, unfolding of the can-never-be-scheduled rule and of the first lazy_bisect step) + sampled differential tie (incl. ru.lazy_bisect inside the real loop) and monitor',
          'C04_incoming_conserve and C04_drain_conserve prove that every task handed to the scheduler intake ends exactly once as started, failed or parked (tasks with ranks <= 0 failed once); C04_never_rule proves that a task is failed for lack of resources only when nothing holds resources; C04_last_checked_first proves that lazy_bisect examines the last (smallest) waiting task first so a fitting one is started; C04_app_slots_witness exhibits F3. The whole-run clauses (exactly one place at any time, started as soon as resources are released, priorities) are checked by the monitor on the real loop and the exact model comparison (partial).',
          'Trusted: as C01; ru.lazy_bisect (ratio 0.5) is modelled and exercised through the real loop.', 'DESIGN.md section 6 C04'),
+ 'C07': ('Lean 4 proof (inductive invariant over an interleaving transition system: ownership token + no-process frame + liveness bookkeeping, preserved by every step of every thread) + differential tie to the real Popen executor driven through the same schedules by a cooperative scheduler',
+         'C07_safety proves for EVERY schedule of the intake thread, the watcher, any number of cancel_task invocations (control thread, timeout watcher, late check), spontaneous process exits with any code, cancel requests, timeouts and launch failures that execution start is announced at most once, the task is handed on at most once, and the unschedule publication happens exactly as often as the hand-over; C07_single_owner that at most one thread ever holds the task between taking it out of _tasks and handing it on (never collected twice, never both canceled and collected); C07_complete that in every quiescent reachable state the accepted task was handed on exactly once and released exactly once (never left behind); C07_fault_outcome that launch failures end FAILED. The real Popen.work/_launch_task/_check_running/cancel_task, control_cb, handle_timeout, _control_cb and is_canceled run in real threads whose every shared access is a scheduling point; observables after every step equal the model.',
+         'Trusted: Lean kernel, harness/coop.py; atomicity = code between two instrumented shared accesses (GIL), one task, scripted process object (kill succeeds, wait returns at once), OS signals/zombies not modelled; NOOP executor not modelled.',
+         'DESIGN.md section 6 C07'),
+ 'C08': ('Lean 4 proof (list/permutation reasoning for the intake filter, invariant over executor schedules without requests, wait-pool removal lemma) + differential ties to the real work_cb filter, the real executor under the cooperative scheduler and the real scheduler loop',
+         'C08_intake proves that of any bulk reaching a component after a cancel request exactly the named tasks are advanced to CANCELED and not processed while all others are processed; C08_no_spurious_cancel that the executor never cancels a task without a request or timeout, C08_cancel_once that with requests at any point the task is still finished and released exactly once (C07), C08_waitpool_cancel that a cancel message takes only entries with the named uid out of the wait pool. KNOWN FINDING F5 (recorded): a request landing between placement and executor intake leaves the placement unreleased. Bystander trace equality over whole runs is monitored, not proved (partial).',
+         'Trusted: as C07 and C01-C04; TaskManager.cancel_tasks only publishes; raptor backlog cancellation not tied.',
+         'DESIGN.md section 6 C08'),
 }
 
 NOT_YET = {}
